@@ -12,7 +12,7 @@ import (
 // c.new  {A,P,V}            save a container literal
 // c.ops  {A,P,T,M,Sub}      M = "ref" (borrow auth(Mutate) &T) | "mem" (load, operate, save back)
 
-func isPrim(t *Ty) bool { return t.K == "Int" || t.K == "String" || t.K == "Bool" }
+func isPrim(t *Ty) bool { return t.K == "Int" || t.K == "String" || t.K == "Bool" || t.K == "UInt64" }
 
 func (o Op) codeContainers(k int, m *Model) (string, bool) {
 	n := func(s string) string { return fmt.Sprintf("%s_%d", s, k) }
